@@ -29,6 +29,7 @@ package types
 //@   ensures[integers-become-float64] t != nil && (t.(int) || t.(int8) || t.(int16) || t.(int32) || t.(int64) || t.(uint) || t.(uint8) || t.(uint16) || t.(uint32) || t.(uint64)) ==> result != nil && result.(float64)
 //@   ensures[floats-become-float64]   t != nil && (t.(float32) || t.(float64)) ==> result != nil && result.(float64)
 //@   ensures[strings-pass]  t != nil && t.(string) ==> result != nil && result.(string) && result.(as string) == t.(as string)
+//@   ensures[a-value-stays-a-value] t != nil ==> result != nil
 //@   ensures[bools-pass]    t != nil && t.(bool) ==> result != nil && result.(bool) && result.(as bool) == t.(as bool)
 //@   modifies nothing
 
